@@ -562,9 +562,11 @@ func continueBoth(r *rand.Rand, b builtState, l loaded, dim int) bool {
 			case x < 4 && !hnsw:
 				v := histVec(r, dim, r.Intn(2))
 				eq(b.src.vec.Add(*comet.NewVectorNodeWithID(id, cloneVec(v))), l.vec.Add(*comet.NewVectorNodeWithID(id, cloneVec(v))))
-			case x < 8:
+			case x < 8 || hnsw:
 				eq(b.src.vec.Remove(*comet.NewVectorNodeWithID(id, nil)), l.vec.Remove(*comet.NewVectorNodeWithID(id, nil)))
 			default:
+				// (not for HNSW: its Flush re-elects the entry point by ranging over a map, so two
+				// equal indexes may legitimately answer differently afterwards)
 				eq(b.src.vec.Flush(), l.vec.Flush())
 			}
 		case b.src.txt != nil:
